@@ -485,4 +485,19 @@ theorem row_correct (r : Row) (hok : rowOk r = true) (hs : r.src ∈ legalTys) (
     | [], hv, _ => simp [rowSpec] at hv
     | _ :: _ :: _, hv, _ => simp [rowSpec] at hv
 
+/-! ### memory round trip -/
+
+/-- storing the canonical temporary of an in-range value with the type's store instruction and loading it back with the type's
+    load instruction gives the canonical temporary again: a value that went through memory (a field, an element, a spilled local)
+    is indistinguishable from one that stayed in a temporary -/
+theorem mem_roundtrip (t : Ty) (ht : t ∈ legalTys) (v : Int) (hv : t.inRange v) :
+    (memStore (expectedMem t).1 (canon t v)).bind (memLoad t.cls (expectedMem t).2) = some (canon t v) := by
+  simp only [legalTys, List.mem_cons, List.mem_nil_iff, or_false] at ht
+  rcases ht with rfl | rfl | rfl | rfl | rfl | rfl | rfl | rfl <;>
+    simp [expectedMem, memStore, storeBits, memLoad, sxk, canon, Ty.cls, Ty.inRange, Ty.lo, Ty.hi, pat_w, pat_l] at * <;> omega
+
+/-- sharpness: reading an unsigned byte back with the sign-extending load is wrong from 128 on -/
+theorem wrong_load_witness :
+    (memStore "storeb" (canon ⟨8, false⟩ 200)).bind (memLoad .w "loadsb") ≠ some (canon ⟨8, false⟩ 200) := by decide
+
 end FerretVerif.QbeSem
